@@ -6,7 +6,7 @@ cd "$(dirname "$0")/.."
 [ -z "$(git -C /repo status --porcelain)" ] || { echo "/repo working tree is not clean"; exit 2; }
 props="$@"
 if [ -z "$props" ]; then props=$(python3 -c "import json;print(json.load(open('$d/meta.json'))['property'])"); fi
-git -C /repo apply "$d/patch.diff" || { echo "patch does not apply"; exit 2; }
+git -C /repo apply "$(readlink -f $d)/patch.diff" || { echo "patch does not apply"; exit 2; }
 trap 'git -C /repo checkout -- . ' EXIT
 if [ -f "$d/demo.py" ]; then (cd /repo && timeout 300 /venv/bin/python "$OLDPWD/$d/demo.py" >/dev/null 2>&1; echo "demo on mutated tree: exit $?"); fi
 for p in $props; do
